@@ -12,6 +12,7 @@ import (
 	"hash/fnv"
 	"math/rand"
 	"net"
+	"os"
 	"runtime"
 	"strings"
 	"sync"
@@ -33,6 +34,21 @@ var (
 )
 
 var t0 = time.Now()
+
+// waitOrHang waits for the closers; a Close that does not return is an event of its own (and ends the run,
+// since the goroutines it blocks cannot be recovered).
+func waitOrHang(w *vt.Writer, wg *sync.WaitGroup, what string) {
+	done := make(chan struct{})
+	go func() { wg.Wait(); close(done) }()
+	select {
+	case <-done:
+	case <-time.After(10 * time.Second):
+		w.Emit(vt.Ev{"e": "Hang", "what": what, "ms": ms()})
+		w.Close()
+		vt.PrintSummary(vt.Summary{Events: w.Events(), Traces: w.Traces(), Evaluations: w.Events(), Distinct: 2})
+		os.Exit(0)
+	}
+}
 
 func ms() int { return int(time.Since(t0) / time.Millisecond) }
 
@@ -143,7 +159,7 @@ func udpRun(w *vt.Writer, r *rand.Rand, pool []*entities.InfoElement, dur time.D
 			}
 		}(c)
 	}
-	wg.Wait()
+	waitOrHang(w, &wg, "CloseConnToCollector (udp)")
 	// a few more application sends after Close returned (they must fail and write nothing), then the marker
 	time.Sleep(20 * time.Millisecond)
 	close(stopApp)
@@ -218,7 +234,7 @@ func tcpRun(w *vt.Writer, r *rand.Rand, pool []*entities.InfoElement) int {
 			w.Emit(vt.Ev{"e": "CloseEnd", "c": c, "ms": ms()})
 		}(c)
 	}
-	wg.Wait()
+	waitOrHang(w, &wg, "CloseConnToCollector (tcp)")
 	time.Sleep(20 * time.Millisecond)
 	w.Emit(vt.Ev{"e": "End", "leaked": exporterGoroutines(), "ms": ms()})
 	return evals
